@@ -34,11 +34,11 @@ func init() {
 			"a node passed whole to another function counts as fully read",
 		},
 		Rules: []RuleDef{
-			{Name: "C16-HANDLER", Floor: 25, Doc: "each special handler reads every content field of its node type", Run: c16Run},
-			{Name: "C16-TABLE", Floor: 25, Doc: "each handler asserts exactly the type it is registered for", Run: nop},
-			{Name: "C16-DECL", Floor: 2, Doc: "declarations that the parser registers in the VM instead of the AST (classes, interfaces) are re-attached to the program of every file shape", Run: nop},
+			{Name: "C16-HANDLER", Floor: 11, Doc: "each special handler reads every content field of its node type", Run: c16Run},
+			{Name: "C16-TABLE", Floor: 12, Doc: "each handler asserts exactly the type it is registered for", Run: nop},
+			{Name: "C16-DECL", Floor: 1, Doc: "declarations that the parser registers in the VM instead of the AST (classes, interfaces) are re-attached to the program of every file shape", Run: nop},
 			{Name: "C16-SKIP", Floor: 20, Doc: "no emitter loop skips an element of what it emits (no continue), and string content is written only through %q: nothing is dropped or altered on the way into the generated source", Run: nop},
-			{Name: "C16-ERR", Floor: 5, Doc: "the reflective emitter reports every shape it cannot translate", Run: nop},
+			{Name: "C16-ERR", Floor: 2, Doc: "the reflective emitter reports every shape it cannot translate", Run: nop},
 		},
 	})
 }
